@@ -219,10 +219,15 @@ def compare_power(case, obs, model):
         STATS['boundary_skipped'] += 1
         return None
     finite = all(math.isfinite(v) for v in obs['ret'])
-    if status == 1:
-        # exact breakdown: some G^k v0 is exactly 0 (start vector in the kernel).  The implementation gives nan when the
-        # float computation is exact as well, and rounding noise (then renormalised) otherwise: only the prefix is compared
+    if status == 1 or _degenerate(case):
+        # exact breakdown: G v0 is exactly 0 (start vector in the kernel).  The model (repaired code) keeps the vector and the estimate stays 0;
+        # so does the implementation when the float computation is exact as well, but with rounding noise in v0/|v0| the product G v is ~1e-16
+        # instead of 0, gets renormalised and the iteration restarts from noise (still below the norm and non-decreasing: checked by the oracle).
+        # Only the prefix before the breakdown (the first estimate) is compared; a non-finite value is never accepted.
         STATS['exact_breakdown'] += 1
+        if not finite or not all(math.isfinite(v) for r in obs['seq'] for v in r):
+            return f'model: estimates stay finite (0) for a start vector in the kernel, impl returns {obs["ret"]} after {obs["seq"][:3]}'
+        mtrace = mtrace[:1]
         seq = obs['seq'][:len(mtrace)]
         scale = max([1e-300] + [v for r in mtrace for v in r])
         for k, (row, mrow) in enumerate(zip(seq, mtrace)):
